@@ -6,9 +6,10 @@ generic in the same way: every function is written against the core operation cl
 (`Zero`, `Neg`, `Sub`, `Mul`, `LT`, `LE` with decidable order, `IntCast`) and is used
 
 * in `Props/C17.lean` at an arbitrary linearly ordered field (Mathlib instances) – the theorems,
-* in `Driver/C17.lean` at the exact dyadic numbers `Dy` (for `float`/`double` inputs on which every
-  C++ intermediate is exact) and at the 8-bit floating-point format `MF` whose operations round
-  (for the exhaustive runs against the templates instantiated with the harness' minifloat class).
+* in `Driver/C17.lean` at the exact rationals (for `float`/`double` inputs on which every C++ intermediate is
+  exact) and at the floating-point formats `FP f` whose operations round like IEEE 754 (binary32, binary64,
+  x87 extended against the templates instantiated with `float`/`double`/`long double` on arbitrary finite
+  inputs; the 8-bit format against the harness' minifloat class, exhaustively).
 
 `absK`, `maxK`, `minK` are `std::abs`, `std::max`, `std::min` written out.
 -/
@@ -52,6 +53,9 @@ instance : LT Dy := ⟨fun a b => a.num * 2 ^ b.exp < b.num * 2 ^ a.exp⟩
 instance : LE Dy := ⟨fun a b => a.num * 2 ^ b.exp ≤ b.num * 2 ^ a.exp⟩
 instance : DecidableLT Dy := fun a b => inferInstanceAs (Decidable (a.num * 2 ^ b.exp < b.num * 2 ^ a.exp))
 instance : DecidableLE Dy := fun a b => inferInstanceAs (Decidable (a.num * 2 ^ b.exp ≤ b.num * 2 ^ a.exp))
+
+/-- the rational number denoted -/
+def toRat (d : Dy) : Rat := mkRat d.num (2 ^ d.exp)
 
 def beq (a b : Dy) : Bool := a.num * 2 ^ b.exp == b.num * 2 ^ a.exp
 
@@ -98,108 +102,169 @@ instance : Div Dy := ⟨fun a b => match inv? b with
 
 end Dy
 
-/-! ## An 8-bit IEEE-like floating-point format (1 sign, 4 exponent, 3 mantissa bits, bias 7)
+/-! ## Binary floating-point formats with IEEE rounding (round to nearest, ties to even)
 
-Codes: exponent field 0 = subnormal `m · 2^-9`, 15 = infinity (m = 0) / NaN, otherwise `(8+m) · 2^(e-10)`.
-Largest finite value 240.  Every operation is the exact operation followed by round-to-nearest-even,
-exactly like the harness' C++ class `MF8` (which computes in `double`, where these operations are exact,
-and rounds once). -/
+`Fmt` describes a format by its precision and exponent range; `FP f` is the set of its values.  A finite value is
+stored as the integer `n` with value `n · 2^q`, `q = emin - prec + 1` the exponent of the smallest subnormal (the
+"grid unit"): every finite number of the format is an integer multiple of the grid unit, so the representation
+is canonical (structural equality = numerical equality; `+0` and `-0` are one value, which no function modelled
+here can tell apart) and the order is the order of the integers.  Every operation is the exact operation followed
+by one rounding to the format, overflow goes to infinity — the semantics of IEEE 754 binary32/binary64, of the x87
+extended format and of the harness' 8-bit class `MF8` (1 sign, 4 exponent, 3 mantissa bits, bias 7). -/
 
-inductive MF where
-  | fin (v : Dy)
+structure Fmt where
+  /-- significand bits including the hidden bit -/
+  prec : Nat
+  /-- exponent of the smallest normal number `2^emin` -/
+  emin : Int
+  /-- exponent of the largest binade: the largest finite number is `(2^prec - 1) · 2^(emax - prec + 1)` -/
+  emax : Int
+  deriving Repr, DecidableEq
+
+namespace Fmt
+/-- `-q`: the grid unit is `2^(-sh)` (all formats used here have `q ≤ 0`) -/
+def sh (f : Fmt) : Nat := ((f.prec : Int) - 1 - f.emin).toNat
+/-- the largest finite number in grid units -/
+def maxGrid (f : Fmt) : Nat := (2 ^ f.prec - 1) * 2 ^ (f.emax - f.emin).toNat
+
+def mf8 : Fmt := ⟨4, -6, 7⟩
+def f32 : Fmt := ⟨24, -126, 127⟩
+def f64 : Fmt := ⟨53, -1022, 1023⟩
+/-- x87 double extended (`long double` of x86-64) -/
+def f80 : Fmt := ⟨64, -16382, 16383⟩
+end Fmt
+
+inductive FP (f : Fmt) where
+  | fin (n : Int)
   | inf (neg : Bool)
   | nan
-  deriving Repr
+  deriving Repr, DecidableEq
 
-namespace MF
+namespace FP
+variable {f : Fmt}
 
-def prec : Nat := 4          -- significand bits including the hidden bit
-def emin : Int := -6         -- exponent of the smallest normal number
-def maxFinite : Dy := ⟨240, 0⟩
+/-- round the magnitude `a / 2^s` grid units to the format (nearest, ties to even); result in grid units.
+    The leading bit of the magnitude is at position `L - s`; values below `2^prec` grid units have ulp 1, above it
+    the ulp is `2^u`, `u = L - s - prec` (both `Nat` subtractions are meant to stop at 0). -/
+def roundMag (f : Fmt) (a s : Nat) : Nat :=
+  let L := Dy.bitlen a
+  let u : Nat := (L - s) - f.prec
+  let t := s + u
+  if t = 0 then a else
+  let fl := a / 2 ^ t
+  let rem := a % 2 ^ t
+  let half := 2 ^ (t - 1)
+  let N := if rem > half ∨ (rem = half ∧ fl % 2 = 1) then fl + 1 else fl
+  N * 2 ^ u
 
-/-- round an exact dyadic value to the format, ties to even, overflow to infinity -/
-def rnd (x : Dy) : MF :=
-  if x.num = 0 then .fin ⟨0, 0⟩ else
-  let a := x.num.natAbs
-  let neg := x.num < 0
-  -- exponent of the leading bit
-  let E : Int := (Dy.bitlen a : Int) - 1 - (x.exp : Int)
-  let Ee : Int := if E < emin then emin else E
-  let u : Int := Ee - ((prec : Int) - 1)            -- exponent of one ulp
-  let s : Int := (x.exp : Int) + u                  -- |x| / 2^u = a / 2^s
-  let N : Nat :=
-    if s ≤ 0 then a * 2 ^ (-s).toNat else
-    let sh := s.toNat
-    let fl := a / 2 ^ sh
-    let rem := a % 2 ^ sh
-    let half := 2 ^ (sh - 1)
-    if rem > half ∨ (rem = half ∧ fl % 2 = 1) then fl + 1 else fl
-  let mag := Dy.mk2 (N : Int) u
-  if maxFinite < mag then .inf neg else .fin (if neg then -mag else mag)
+/-- sign and rounded magnitude to a value; overflow to infinity -/
+def ofMag (f : Fmt) (neg : Bool) (g : Nat) : FP f :=
+  if g > f.maxGrid then .inf neg else .fin (if neg then -(g : Int) else (g : Int))
 
-def decode (code : Nat) : MF :=
-  let neg := code / 128 % 2 = 1
-  let e := code / 8 % 16
-  let m := code % 8
-  if e = 15 then (if m = 0 then .inf neg else .nan) else
-  let mag : Dy := if e = 0 then Dy.mk2 m (-9) else Dy.mk2 (8 + m) ((e : Int) - 10)
-  .fin (if neg then -mag else mag)
+/-- the format's rounding of the exact value `z / 2^s` grid units -/
+def rnd (f : Fmt) (z : Int) (s : Nat) : FP f := ofMag f (decide (z < 0)) (roundMag f z.natAbs s)
 
-def isFin : MF → Bool
+def isFin : FP f → Bool
   | .fin _ => true
   | _ => false
 
-instance : Zero MF := ⟨.fin ⟨0, 0⟩⟩
-instance : IntCast MF := ⟨fun i => rnd (Dy.ofInt i)⟩
+instance : Zero (FP f) := ⟨.fin 0⟩
+/-- `T(i)`: conversion of an integer, rounded -/
+instance : IntCast (FP f) := ⟨fun i => rnd f (i * 2 ^ f.sh) 0⟩
 
-def neg : MF → MF
+def neg : FP f → FP f
   | .fin v => .fin (-v)
   | .inf s => .inf (!s)
   | .nan => .nan
-instance : Neg MF := ⟨neg⟩
+instance : Neg (FP f) := ⟨neg⟩
 
-def sub : MF → MF → MF
-  | .fin a, .fin b => rnd (a - b)
+def sub : FP f → FP f → FP f
+  | .fin a, .fin b => rnd f (a - b) 0
   | .nan, _ => .nan
   | _, .nan => .nan
   | .inf s, .fin _ => .inf s
   | .fin _, .inf s => .inf (!s)
   | .inf s, .inf t => if s = t then .nan else .inf s
-instance : Sub MF := ⟨sub⟩
+instance : Sub (FP f) := ⟨sub⟩
 
-def mul : MF → MF → MF
-  | .fin a, .fin b => rnd (a * b)
+def add : FP f → FP f → FP f
+  | .fin a, .fin b => rnd f (a + b) 0
   | .nan, _ => .nan
   | _, .nan => .nan
-  | .inf s, .fin b => if b.num = 0 then .nan else .inf (s != decide (b.num < 0))
-  | .fin a, .inf s => if a.num = 0 then .nan else .inf (s != decide (a.num < 0))
-  | .inf s, .inf t => .inf (s != t)
-instance : Mul MF := ⟨mul⟩
+  | .inf s, .fin _ => .inf s
+  | .fin _, .inf s => .inf s
+  | .inf s, .inf t => if s = t then .inf s else .nan
+instance : Add (FP f) := ⟨add⟩
 
-def lt : MF → MF → Bool
+/-- the product of `a` and `b` grid units is `a·b / 2^sh` grid units -/
+def mul : FP f → FP f → FP f
+  | .fin a, .fin b => rnd f (a * b) f.sh
+  | .nan, _ => .nan
+  | _, .nan => .nan
+  | .inf s, .fin b => if b = 0 then .nan else .inf (s != decide (b < 0))
+  | .fin a, .inf s => if a = 0 then .nan else .inf (s != decide (a < 0))
+  | .inf s, .inf t => .inf (s != t)
+instance : Mul (FP f) := ⟨mul⟩
+
+def lt : FP f → FP f → Bool
   | .fin a, .fin b => decide (a < b)
   | .nan, _ => false
   | _, .nan => false
   | .inf s, .fin _ => s
   | .fin _, .inf s => !s
   | .inf s, .inf t => s && !t
-def le : MF → MF → Bool
+def le : FP f → FP f → Bool
   | .fin a, .fin b => decide (a ≤ b)
   | .nan, _ => false
   | _, .nan => false
   | .inf s, .fin _ => s
   | .fin _, .inf s => !s
   | .inf s, .inf t => s || !t
-instance : LT MF := ⟨fun a b => lt a b = true⟩
-instance : LE MF := ⟨fun a b => le a b = true⟩
-instance : DecidableLT MF := fun a b => inferInstanceAs (Decidable (lt a b = true))
-instance : DecidableLE MF := fun a b => inferInstanceAs (Decidable (le a b = true))
+instance : LT (FP f) := ⟨fun a b => lt a b = true⟩
+instance : LE (FP f) := ⟨fun a b => le a b = true⟩
+instance : DecidableLT (FP f) := fun a b => inferInstanceAs (Decidable (lt a b = true))
+instance : DecidableLE (FP f) := fun a b => inferInstanceAs (Decidable (le a b = true))
 
-/-- `I(val)` for a finite value (the conversion is undefined otherwise; the harness never does it) -/
-def trunc : MF → Int
-  | .fin v => v.trunc
+/-- `I(val)` for a finite value: truncation toward zero (the conversion is undefined otherwise; the harness never
+    does it) -/
+def trunc : FP f → Int
+  | .fin v => Int.tdiv v (2 ^ f.sh)
   | _ => 0
 
+/-- the value `m · 2^e` if it belongs to the format -/
+def ofDyadic? (f : Fmt) (m e : Int) : Option (FP f) :=
+  if m = 0 then some (.fin 0) else
+  let k := e + (f.sh : Int)
+  if k < 0 then
+    -- m · 2^e = (m / 2^(-k)) grid units: must be an integer
+    let d : Nat := 2 ^ (-k).toNat
+    if m % (d : Int) = 0 then (let n := m / (d : Int); if rnd f n 0 = .fin n then some (.fin n) else none) else none
+  else
+    if k > 40000 then none else
+    let n := m * 2 ^ k.toNat
+    if rnd f n 0 = .fin n then some (.fin n) else none
+
+/-- exact dyadic string `m:e` of a finite value -/
+def str : FP f → String
+  | .fin n => (Dy.mk2 n (-(f.sh : Int))).str
+  | .inf s => if s then "-inf" else "inf"
+  | .nan => "nan"
+
+end FP
+
+/-- the harness' 8-bit format -/
+abbrev MF := FP Fmt.mf8
+
+namespace MF
+/-- value of an 8-bit code: exponent field 0 = subnormal `m · 2^-9`, 15 = infinity (m = 0) / NaN, otherwise
+    `(8+m) · 2^(e-10)`; in grid units (`2^-9`) that is `m` resp. `(8+m) · 2^(e-1)` -/
+def decode (code : Nat) : MF :=
+  let neg := code / 128 % 2 = 1
+  let e := code / 8 % 16
+  let m := code % 8
+  if e = 15 then (if m = 0 then .inf neg else .nan) else
+  let mag : Int := if e = 0 then (m : Int) else ((8 + m) * 2 ^ (e - 1) : Nat)
+  .fin (if neg then -mag else mag)
 end MF
 
 end DV.C17
